@@ -175,12 +175,12 @@ def make_field(rng, cls, nt, ntv):
         D1 = project(gen(rng), base_cls)
         D2 = project(gen(rng), base_cls)
         if cls == "soft-mode":
-            # positive definite with one elastically soft direction: condition number 3e3 .. 5e4 (below the 1e5 limit of
+            # positive definite with one elastically soft direction: condition number 3e3 .. 1.2e4 (below the 1e5 limit of
             # the quantifier as modelled, above anything a truncating inverse would still treat exactly)
             while True:
                 C0 = random_spd(rng, lo=0.02, hi=600.0)
                 ev = numpy.linalg.eigvalsh(C0)
-                if 3e3 < ev.max() / ev.min() < 5e4:
+                if 3e3 < ev.max() / ev.min() < 1.2e4:
                     break
             D1, D2 = 0.5 * C0, 0.25 * C0
         keep = None
@@ -339,10 +339,17 @@ def coq_tbl(t):
     return "[" + "; ".join("(%s%%Z, %s%%Z, %s)" % (zlit(a), zlit(b), fhex(v)) for a, b, v in t) + "]"
 
 
+def ctol(p):
+    """1e-9 for ordinarily conditioned tensors; the inverse amplifies the last-bit differences between the stiffness as
+    published and as inverted by cond(C), so the residual tolerance grows with it beyond cond = 1e3"""
+    c = p.get("cond", 1.0)
+    return 1e-9 * max(1.0, c / 1e3) if math.isfinite(c) else 1e-9
+
+
 def coq_case(p):
     return "(%s,\n   %s,\n   %s, %s, %s, [%s])" % (
         coq_tbl(p["tbl"]), coq_tbl(p["sobs"]), fhex(p["cellmass"]), fhex(p["volume"]),
-        fhex(1e-9) if p["wellcond"] else "infinity", "; ".join(fhex(x) for x in p["outs"]))
+        fhex(ctol(p)) if p["wellcond"] else "infinity", "; ".join(fhex(x) for x in p["outs"]))
 
 
 # ---------------------------------------------------------------------------------------------------
@@ -433,7 +440,7 @@ def oracle_point(p, ry_impl, num=Fraction):
         if q in p["err"]:
             bad.append((q + ":" + p["err"][q], "%s raised %s on a positive definite stiffness" % (q, p["err"][q]),
                         e, p["err"][q]))
-        elif not (abs(o - e) <= 1e-9 * abs(e)):
+        elif not (abs(o - e) <= ctol(p) * abs(e)):
             bad.append((q, "%s differs from the value defined by the full tensor / SI relation" % q, e, o))
     o = p["outs"]
     if all(math.isfinite(x) for x in o[:6]):
@@ -454,7 +461,7 @@ def oracle_point(p, ry_impl, num=Fraction):
                 if abs(e) > 1e-9 * smax:
                     bad.append(("compliance-missing-s%d%d" % (a, b), "s%d%d is not published although it is non-zero"
                                 % (a, b), e, None))
-            elif not (abs(ob - e) <= 1e-9 * smax):
+            elif not (abs(ob - e) <= ctol(p) * smax):
                 bad.append(("compliances", "published s%d%d is not the (%d,%d) entry of the inverse stiffness"
                             % (a, b, a, b), e, ob))
                 break
@@ -489,7 +496,9 @@ def run(ctx):
         "satisfy |S.C - I| <= 1e-9 and against an exact rational inverse in the search stage",
         "pint: the Ry -> kg km^2/s^2 factor is read from cij.util.units and checked against CODATA 2018 "
         "(2.1798723611035e-24) to 1e-9; scipy's Avogadro constant is checked against 6.02214076e23",
-        "binary64 evaluation of the model formulas agrees with numpy's to 1e-9 relative (measured, not proved)",
+        "binary64 evaluation of the model formulas agrees with numpy's to 1e-9 relative (measured, not proved); the three "
+        "tolerances that involve the inverse (|S.C - I|, published compliances, Reuss-derived outputs of the Python oracle) "
+        "are 1e-9 * max(1, cond(C)/1e3): class soft-mode has cond 3e3 .. 1.2e4",
         "CijVolumeBaseInterface.__getattr__/REGEX_CIJ key lookup is modelled as table lookup (its index algebra is C10)",
     ]
     ctx.assumptions += [
